@@ -67,4 +67,56 @@ theorem shapesOk_iff (norm : Norm) (A X W : Mat ℝ) (b : Option (List ℝ)) :
   unfold Spec.shapesOk
   cases b <;> cases norm <;> simp [and_assoc]
 
+/-- two containers with the same denotation: same shape, same entries -/
+def SameEntries (A A' : Mat ℝ) : Prop := A.r = A'.r ∧ A.c = A'.c ∧ ∀ i j, A.get i j = A'.get i j
+
+theorem SameEntries.refl (A : Mat ℝ) : SameEntries A A := ⟨rfl, rfl, fun _ _ => rfl⟩
+
+theorem matmul_congr {A A' B B' : Mat ℝ} (hA : SameEntries A A') (hB : SameEntries B B') :
+    matmul A B = matmul A' B' := by
+  obtain ⟨hAr, hAc, hA⟩ := hA
+  obtain ⟨hBr, hBc, hB⟩ := hB
+  have hgA : A.get = A'.get := funext fun i => funext fun j => hA i j
+  have hgB : B.get = B'.get := funext fun i => funext fun j => hB i j
+  unfold matmul
+  simp only [hAr, hAc, hgA, hBr, hBc, hgB]
+
+theorem rowSums_congr {A A' : Mat ℝ} (hA : SameEntries A A') : rowSums A = rowSums A' := by
+  obtain ⟨hAr, hAc, hA⟩ := hA
+  have hgA : A.get = A'.get := funext fun i => funext fun j => hA i j
+  unfold rowSums
+  simp only [hAr, hAc, hgA]
+
+theorem addSelfLoops_congr {A A' : Mat ℝ} (hA : SameEntries A A') : addSelfLoops A = addSelfLoops A' := by
+  obtain ⟨hAr, hAc, hA⟩ := hA
+  have hgA : A.get = A'.get := funext fun i => funext fun j => hA i j
+  unfold addSelfLoops
+  simp only [hAr, hAc, hgA]
+
+theorem normalize_congr (norm : Norm) {A A' : Mat ℝ} (hA : SameEntries A A') :
+    (∃ e, Gnn.normalize norm A = .error e ∧ Gnn.normalize norm A' = .error e) ∨
+      (∃ M M', Gnn.normalize norm A = .ok M ∧ Gnn.normalize norm A' = .ok M' ∧ SameEntries M M') := by
+  have key : norm ≠ .none → Gnn.normalize norm A = Gnn.normalize norm A' := by
+    intro hn
+    unfold Gnn.normalize
+    rw [rowSums_congr hA]
+    cases norm with
+    | left => exact matmul_congr (SameEntries.refl _) hA
+    | right => exact matmul_congr hA (SameEntries.refl _)
+    | both => simp only [matmul_congr (SameEntries.refl _) hA]
+    | none => exact absurd rfl hn
+  by_cases hn : norm = .none
+  · subst hn
+    right
+    exact ⟨A, A', rfl, rfl, hA⟩
+  · rw [key hn]
+    cases h : Gnn.normalize norm A' with
+    | error e => left; exact ⟨e, rfl, rfl⟩
+    | ok M => right; exact ⟨M, M, rfl, rfl, SameEntries.refl M⟩
+
+theorem pinv_mul_self (x : ℝ) (hx : x ≠ 0) : pinv x * x = 1 := by
+  unfold pinv
+  simp only [num_eqb, decide_eq_true_eq, hx, if_false]
+  field_simp
+
 end SkNet.Gnn
